@@ -86,6 +86,24 @@ Theorem C08_hashmap_create_empty : forall (V : Type) (hash : Z -> Z) n k,
 Proof. exact (@hm_find_create). Qed.
 Print Assumptions C08_hashmap_create_empty.
 
+(* bucket structure: every reachable map is well formed (no key twice in a chain, every key
+   in the bucket `hash key mod size`), and an insert adds a node exactly when the key is new *)
+Theorem C08_hashmap_insert_wf : forall (V : Type) (hash : Z -> Z) (h : @hmap V) k v,
+  h <> [] -> hm_wf hash h -> hm_wf hash (hm_insert hash h k v).
+Proof. exact (@hm_wf_insert). Qed.
+Print Assumptions C08_hashmap_insert_wf.
+
+Theorem C08_hashmap_insert_no_duplicate_node : forall (V : Type) (c : @chain V) k v,
+  length (chain_insert c k v)
+  = if existsb (Z.eqb k) (map fst c) then length c else Datatypes.S (length c).
+Proof. exact (@chain_insert_no_duplicate_node). Qed.
+Print Assumptions C08_hashmap_insert_no_duplicate_node.
+
+Theorem C08_compiled_states_wf : forall nl size init h, (0 < size)%nat ->
+  hm_wf c_hash (snd (comp_mem_run nl (c_init nl size init) h)).
+Proof. exact comp_states_wf. Qed.
+Print Assumptions C08_compiled_states_wf.
+
 (* CompiledSimulation (limbs of 64 bits, key = low limb of the address): refines the
    array for addresses below 2^64 and data of any number of limbs *)
 Theorem C08_refines_array_compiled : forall nl h h' (s : cmap) A,
@@ -130,17 +148,42 @@ Theorem C08_backends_agree : forall nl size init h h1 h2 h3,
 Proof. exact backends_agree. Qed.
 Print Assumptions C08_backends_agree.
 
-(* The full statement for CompiledSimulation (no bound on the address) is FALSE of the
-   faithful model: the key is `addr[0]`, so addresses alias modulo 2^64. *)
-Definition C08_compiled_full_statement : Prop :=
+(* The bound 2^64 on addresses is necessary: the key of the hash map is `addr[0]` (the low
+   64-bit limb), so without it addresses alias modulo 2^64 and the array property is FALSE
+   of the model.  (Found by this check on the original tree -- CompiledSimulation accepted
+   addrwidth > 64; repaired in /repo by rejecting such memories at construction, which the
+   harness now checks.) *)
+Definition C08_compiled_unbounded_statement : Prop :=
   forall nl h, Forall cycle_ok h ->
     fst (comp_mem_run nl (c_init nl c_size []) h) = fst (arr_run (arr_init [] 0) h).
 
-Theorem C08_compiled_wide_addr_refuted :
+Theorem C08_compiled_unbounded_refuted :
   exists h, Forall cycle_ok h
             /\ fst (comp_mem_run 1 (c_init 1 c_size []) h) <> fst (arr_run (arr_init [] 0) h).
 Proof. exact comp_wide_addr_refuted. Qed.
-Print Assumptions C08_compiled_wide_addr_refuted.
+Print Assumptions C08_compiled_unbounded_refuted.
+
+(* (v) exported Verilog memory block: continuous read assigns + non-blocking enabled
+   writes at posedge clk, write statements in any (emission) order *)
+Theorem C08_refines_array_verilog : forall h h' m A,
+  (forall a, m a = A a) -> Forall cycle_ok h -> Forall2 cycle_perm h h' ->
+  fst (vlog_run m h') = fst (arr_run A h)
+  /\ forall a, snd (vlog_run m h') a = snd (arr_run A h) a.
+Proof. exact vlog_refines_array. Qed.
+Print Assumptions C08_refines_array_verilog.
+
+(* (vi) after synthesize: ports split into 1-bit wires and re-assembled by concat_list /
+   data[i] are the same ports, for every address width and data width and every machine *)
+Theorem C08_synth_bits_roundtrip : forall n x, 0 <= x < 2 ^ Z.of_nat n -> rebuild n x = x.
+Proof. exact rebuild_id. Qed.
+Print Assumptions C08_synth_bits_roundtrip.
+
+Theorem C08_synth_ports_identity : forall (S : Type) (step : S -> cycle -> list Z * S) aw dw s c,
+  cycle_fits aw dw c ->
+  Forall (fun v => 0 <= v < 2 ^ Z.of_nat dw) (fst (step s c)) ->
+  synth_step step aw dw s c = step s c.
+Proof. exact (@synth_step_id). Qed.
+Print Assumptions C08_synth_ports_identity.
 
 (* ---- corollaries in the property's words -------------------------------------- *)
 
